@@ -56,8 +56,8 @@ func init() {
 		"declared program: flags a/aa, b/bb, valued o/out, arguments X, Y (logging custom flag.Value types, and built-in Bool/Strings types in the builtin tiers)",
 	}
 	addProp(&propDef{
-		ID: "C01", Check: "lang", Level: "exploration",
-		Rule:        "all grammar-derived spec strings up to the size bound (size = leaves + `...` + bracket pairs; deduplicated through a set) x all argument vectors up to the length bound over the token alphabet (every documented spelling, positionals, '-', '--', undeclared and malformed tokens), plus per spec all words over the spec's own letters up to length 5/6 (model traces); each pair is run on a freshly built application through Cli.Run and judged by the reference; pairs are distinct by construction; non-trivial = the reference accepts, or some atom consumed a token before rejecting",
+		ID: "C01", Check: "lang", Level: "model_checking",
+		Rule:        "structural layer: for every grammar-derived spec up to the structural size bound, the automaton compiled by the library (read back state by state) is compared with the partial-derivative automaton of the spec's AST by BFS over the product of the two subset automata (states/transitions = product states/edges; decides language equality over abstract letters for words of unbounded length; a distinguishing word is concretised and must be reproduced on Cli.Run before it is reported); concrete layer (= traces validated against the implementation): all grammar-derived spec strings up to the size bound (size = leaves + `...` + bracket pairs; deduplicated through a set) x all argument vectors up to the length bound over the token alphabet (every documented spelling, positionals, '-', '--', undeclared and malformed tokens), plus per spec all words over the spec's own letters up to length 5/6 (model traces); each pair is run on a freshly built application through Cli.Run and judged by the reference; pairs are distinct by construction; non-trivial = the reference accepts, or some atom consumed a token before rejecting",
 		Assumptions: langAssume,
 		Budget:      [2]int{1200, 7200},
 	})
@@ -75,5 +75,27 @@ func init() {
 		Rule: "(i) every string up to the length bound over 20 byte-class representatives as spec; (ii) every sequence of lexemes up to the bound joined three ways; (iii) every grammar-derived spec up to the size bound x every argv up to the length bound x every subset of {a,o} backed by a set environment variable; each (spec, argv, env) case is executed in a supervised worker process (64 MiB stack limit, hang watchdog) and its outcome class judged; a worker that dies or stops making progress is attributed to the single case it was executing through an mmap'ed state record, and that case is re-run alone three times before it is reported; non-trivial = the spec is rejected at a position > 0, or compiled and the command line was accepted or rejected",
 		Assumptions: []string{"liveness oracle: no progress on one case for 10 s (normal cost 3-30 microseconds), confirmed by three isolated re-runs with a 30 s deadline; stack exhaustion is detected by the Go runtime (debug.SetMaxStack 64 MiB), not by time"},
 		Budget:      [2]int{1500, 7200},
+	})
+}
+
+func init() {
+	metaAssume := []string{
+		"metamorphic: the implementation is compared with itself on two command lines that the property declares equivalent; the reading of a command line into occurrences/positionals (harness/ref/reading.go, DESIGN.md 4.2) decides which pairs are compared and is written from the documentation",
+		"declared program: flags a/aa, b/bb, valued o/out, arguments X, Y (logging custom flag.Value types)",
+	}
+	addProp(&propDef{
+		ID: "C09", Check: "meta", Level: "exploration",
+		Rule:        "part 1: every `--`-free grammar-derived spec up to the size bound x every argv up to the length bound without `--` and without malformed token x every insertion point of `--` from the start of the trailing block of non-dash positional items to the very end: the outcome (acceptance and every binding) of the two real runs must be identical; part 2: every spec of the bound containing `--` x every argv of length <=3 over {x,-a,-z,--zz,--,-,-o,-o=}: acceptance and bindings against the reference (tokens after the marker verbatim); evaluations = compared pairs; non-trivial = pairs whose base outcome is an acceptance",
+		Assumptions: metaAssume,
+	})
+	addProp(&propDef{
+		ID: "C10", Check: "meta", Level: "exploration",
+		Rule:        "every `--`-free grammar-derived spec up to the size bound x all argvs up to the length bound over the spelling alphabet; argvs are bucketed by their reading (sequence of (option,value) occurrences, positionals, end marker); every member of a bucket must have the outcome of the bucket's first member, accepted or not; evaluations = member-vs-representative comparisons; non-trivial = at least one of the two is accepted",
+		Assumptions: metaAssume,
+	})
+	addProp(&propDef{
+		ID: "C11", Check: "meta", Level: "exploration",
+		Rule:        "every `--`-free grammar-derived spec up to the size bound x every argv up to the length bound x every adjacent pair of occurrences of different options (two whole-token occurrences of 1 or 2 tokens, or two neighbouring letters of a flag fold): the swapped command line must have the identical outcome; evaluations = compared pairs; non-trivial = at least one of the two is accepted",
+		Assumptions: metaAssume,
 	})
 }
